@@ -305,6 +305,8 @@ def run_key(c) -> tuple:
         add("pem-public", lambda: k.as_bytes("PEM", private=False))
         add("der-public", lambda: k.as_bytes("DER", private=False))
         add("pem-public", lambda: k.as_pem(private=False, password="pw"))
+        add("der-public", lambda: k.as_der(private=False, password="pw"))
+        add("der-public", lambda: k.as_bytes("DER", private=False, password="pw"))
         add("public-key-default-export", lambda: kpub.as_pem())
         add("public-key-default-export", lambda: kpub.as_dict())
         add("public-key-default-export", lambda: KeySet([kpub]).as_dict())
@@ -333,6 +335,15 @@ def run_key(c) -> tuple:
                 add("keyset-public", lambda: KeySet([ksm]).as_dict(private=False))
     for kind, out in outputs:
         kinds.append(kind)
+        if kind in ("pem-public", "der-public") and isinstance(out, bytes):
+            # whatever the password argument: a public export is not a private key container
+            from cryptography.hazmat.primitives.serialization import load_pem_private_key, load_der_private_key
+            for pw in (None, b"pw"):
+                try:
+                    (load_pem_private_key if kind == "pem-public" else load_der_private_key)(out, pw)
+                    f[f"C12:public-export-is-a-private-key:{kind}:{tag}"] = f"{kind} of a {tag} key loads as a private key (password {pw!r}): {out[:40]!r}"
+                except Exception:
+                    pass
         hit = scan(out, secrets)
         if hit:
             f[f"C12:private-material-in:{kind}:{tag}"] = f"{kind} of a {tag} key contains its private parameter(s) {hit}: {str(out)[:160]}"
